@@ -828,34 +828,41 @@ class NodeFor:
         if lst.isInput():
             input_ = lst
             result = TRUE
-            line = None
-            try:
-                line = input_.readLine()
-                while line:
-                    value = ValueString(line)
-                    bindLoopVariables(
-                        self.identifiers, value, environment, self.pos
+
+            def readLine():
+                # only a failure of the input itself is reported as such;
+                # errors raised by the loop body propagate unchanged
+                try:
+                    return input_.readLine()
+                except Exception:
+                    raise CklRuntimeError(
+                        ValueString("ERROR"),
+                        "Cannot read from input",
+                        self.pos,
                     )
 
-                    result = self.block.evaluate(environment)
-                    if result.isBreak():
-                        result = TRUE
-                        break
-                    elif result.isContinue():
-                        result = TRUE
-                        # continue
-                    elif result.isReturn():
-                        break
-                    line = input_.readLine()
-                    if len(self.identifiers) == 1:
-                        environment.remove(self.identifiers[0])
-                    else:
-                        for i in range(len(self.identifiers)):
-                            environment.remove(self.identifiers[i])
-            except Exception:
-                raise CklRuntimeError(
-                    ValueString("ERROR"), "Cannot read from input", self.pos
+            line = readLine()
+            while line:
+                value = ValueString(line)
+                bindLoopVariables(
+                    self.identifiers, value, environment, self.pos
                 )
+
+                result = self.block.evaluate(environment)
+                if result.isBreak():
+                    result = TRUE
+                    break
+                elif result.isContinue():
+                    result = TRUE
+                    # continue
+                elif result.isReturn():
+                    break
+                line = readLine()
+                if len(self.identifiers) == 1:
+                    environment.remove(self.identifiers[0])
+                else:
+                    for i in range(len(self.identifiers)):
+                        environment.remove(self.identifiers[i])
             return result
 
         if lst.isList():
